@@ -6,7 +6,7 @@ import tempfile
 from harness.impl import base
 from tangermeme.io import read_vcf
 
-TMP = tempfile.mkdtemp(prefix="x16-", dir=os.environ.get("VERIF_SCRATCH", "/tmp"))
+TMP = base.mkd("x16-")
 WORDS = ["chr1", "chr2", "chrX", "rs12", "rs7", ".", "A", "C", "G", "T", "AT", "PASS", "q10", "DP=14", "AF=0.5;DB", "GT:GQ", "GT", "50", "99",
          "0|0:48", "1|0:48", "1/1:43", "NS=3"]
 HASHED = ["id#7", "NOTE=a#b", "#late"]
